@@ -15,23 +15,39 @@
 /* VERIF-UNIT
 {
  "name": "get_next_inode_csum",
- "props": ["C14"],
+ "props": [
+  "C14"
+ ],
  "level": "P",
- "tier": "wip",
+ "tier": "quick",
  "harness": "h_get_next_inode",
- "replace": ["memcpy", "ext2fs_get_mem", "ext2fs_free_mem", "get_next_blocks", "get_next_blockgroup"],
+ "replace": [
+  "memcpy",
+  "ext2fs_get_mem",
+  "ext2fs_free_mem",
+  "get_next_blocks",
+  "get_next_blockgroup"
+ ],
  "unwind": 9,
- "unwindset": {"ext2fs_get_next_inode_full.0": 1},
+ "unwindset": {
+  "ext2fs_get_next_inode_full.0": 1
+ },
  "unwind_reason": "the step under contract is loop-free: the `goto force_new_group` back edge (unwindset 1) belongs to the excluded situations and is proved not taken by the unwinding assertion; get_next_blocks / get_next_blockgroup are replaced by contracts with precondition false (call sites proved unreachable); global bound 9 is for the harness loop over the 8 status bytes",
  "backend": "cadical",
- "cbmc_flags": ["--object-bits", "10"],
- "functions": ["lib/ext2fs/inode.c:ext2fs_get_next_inode_full", "lib/ext2fs/inode.c:ext2fs_get_next_inode"],
+ "cbmc_flags": [
+  "--object-bits",
+  "10"
+ ],
+ "functions": [
+  "lib/ext2fs/inode.c:ext2fs_get_next_inode_full",
+  "lib/ext2fs/inode.c:ext2fs_get_next_inode"
+ ],
  "assumes": [
-   "steady state of a scan: inodes_left > 0, current_block != 0, bytes_left >= inode_size (the next inode lies in the buffer), EXT2_SF_DO_LAZY clear; other scan flags, block status bytes, current inode number arbitrary",
-   "enumerated configuration: inode size 256 (dynamic revision), block size 1024 (4 inodes per block), s_inodes_per_group = 8192, inode_buffer_blocks = 8 (the library default) -- the block-status index divides by these; caller buffer 256 or 128 bytes (ext2fs_get_next_inode)",
-   "scan buffer: 8 KiB of arbitrary content, the inode at an arbitrary 256-byte slot of it",
-   "ext2fs_inode_csum_verify is a monitor stub answering IN.c.cv_ok; libc memcpy, ext2fs_get_mem / ext2fs_free_mem replaced by contracts (see csumio_common.h)",
-   "little-endian host"
+  "steady state of a scan: inodes_left > 0, current_block != 0, bytes_left >= inode_size (the next inode lies in the buffer), EXT2_SF_DO_LAZY clear; other scan flags, block status bytes, current inode number arbitrary",
+  "enumerated configuration: inode size 256 (dynamic revision), block size 1024 (4 inodes per block), s_inodes_per_group = 8192, inode_buffer_blocks = 8 (the library default) -- the block-status index divides by these; caller buffer 256 or 128 bytes (ext2fs_get_next_inode)",
+  "scan buffer: 8 KiB of arbitrary content, the inode at an arbitrary 256-byte slot of it",
+  "ext2fs_inode_csum_verify is a monitor stub answering IN.c.cv_ok; libc memcpy, ext2fs_get_mem / ext2fs_free_mem replaced by contracts (see csumio_common.h)",
+  "little-endian host"
  ],
  "native": false
 }
